@@ -80,7 +80,8 @@ fn image(kind: &Kind, size: u32, content_len: usize, fbvar: u8) -> Vec<u8> {
     // declared size up to the slice needs)
     let mut v = vec![0u8; 8 + content_len];
     for i in 8..v.len() {
-        v[i] = marker(i, 4);
+        // variant 9 of the non-string kinds: all-zero content (zero elements must still count as elements)
+        v[i] = if fbvar == 9 { 0 } else { marker(i, 4) };
     }
     wr32(&mut v, 0, kind.typ);
     wr32(&mut v, 4, size);
@@ -399,14 +400,14 @@ fn derived(ctx: &mut Ctx, arena: &Arena) {
 fn run(ctx: &mut Ctx) {
     let arena = Arena::new(2);
     let extra = if ctx.quick() { 17 } else { 137 };
-    ctx.bound("sizes", format!("per DST kind: declared size 0..=FIXED+4*ELEM+{} + EDGE32; framebuffer additionally stored palette count 0..=5 and a text-mode variant; tag-level seam (ref_from_slice + cast on a slice flush against a guard page, fills A/B) and region-level seam ([filler][tag][filler][end] through load + typed getter) with three different marker patterns in padding and neighbours", extra));
+    ctx.bound("sizes", format!("per DST kind: declared size 0..=FIXED+4*ELEM+{} + EDGE32; framebuffer additionally stored palette count 0..=5 and a text-mode variant; the array / blob kinds additionally with all-zero content; tag-level seam (ref_from_slice + cast on a slice flush against a guard page, fills A/B) and region-level seam ([filler][tag][filler][end] through load + typed getter) with three different marker patterns in padding and neighbours", extra));
     for kind in KINDS.iter() {
         let top = kind.fixed + 4 * kind.elem + extra;
         let mut szs: Vec<u32> = (0..=top as u32).collect();
         szs.extend(EDGE32.iter().copied().filter(|&e| e as usize > top));
         // string kinds: variant 1 = letters without NUL in the declared part, zero bytes after it (a terminator that
         // exists only in the padding)
-        let fbvars: Vec<u8> = if kind.name == "Framebuffer" { vec![0xFF, 0, 1, 2, 3, 5] } else if matches!(kind.name, "Cmdline" | "BootLoaderName" | "Module") { vec![0, 1, 2] } else { vec![0] };
+        let fbvars: Vec<u8> = if kind.name == "Framebuffer" { vec![0xFF, 0, 1, 2, 3, 5] } else if matches!(kind.name, "Cmdline" | "BootLoaderName" | "Module") { vec![0, 1, 2] } else { vec![0, 9] };
         for &size in &szs {
             for &fbvar in &fbvars {
                 // ---------- tag-level
